@@ -143,6 +143,48 @@ example : UpdateOK P0 w0 ["cache"] T0 3 1700000000 [1] 7 where
 example : isCacheName "autoconf-1700000000.json" = true := by decide
 example : isCacheName ".tmp-123456" = false ∧ isCacheName etagFile = false ∧ isCacheName lastRefreshFile = false := by decide
 
+/-- **No assumption on the clock** (second `fix:`: the cleanup keeps the newest `cacheSize` USABLE files):
+whatever names the existing cache files carry — junk with a future time stamp, a clock that stepped back —
+at every crash point `GetCached` either returns exactly what it returned before the update or SOME cached
+configuration; and after the completed update it returns some cached configuration.  So a successful
+fetch can never lead to the built-in fallback, and a usable cache is never lost. -/
+theorem c45_never_fallback_any_clock (P : Params) (w : World) (dir : Path) (T : Tmps) (cacheSize now : Nat)
+    (data etag lm refresh : Bytes) (v : Nat)
+    (hA : P.atomic = true) (hB : P.fallbackOlder = true) (hC : P.validCleanup = true) (inv : Inv w dir)
+    (t1 : TmpOK w dir T.cfg) (t2 : TmpOK w dir T.etag) (t3 : TmpOK w dir T.lm) (t4 : TmpOK w dir T.refresh)
+    (size : 1 ≤ cacheSize) (parses : P.parse data = some v) :
+    (∀ w' ∈ (update P w dir T cacheSize now data etag lm refresh).visited,
+      getCachedConfig P w' dir = getCachedConfig P w dir ∨ getCachedConfig P w' dir ≠ none) ∧
+    getCachedConfig P (update P w dir T cacheSize now data etag lm refresh).last dir ≠ none := by
+  obtain ⟨h1, h2⟩ := update_valid P hA hB hC inv T t1 t2 t3 t4 cacheSize size now data etag lm refresh v parses
+  refine ⟨fun w' hw' => ?_, ?_⟩
+  · rcases (h1 w' hw').2 with e | e
+    · exact Or.inl e
+    · right; intro hn; rw [hn] at e; simp at e
+  · have := h2.isSome hB
+    intro hn; rw [hn] at this; simp at this
+
+/-- **The refreshing read with the network down** (third `fix:`: a missing `.last-refresh` means "stale",
+not "unusable"): `GetCachedOrRefresh` whose fetch fails returns exactly what `GetCached` returns, in every
+world — so all theorems above hold for it as well, at every crash point. -/
+theorem c45_refresh_offline (P : Params) (hR : P.tolerantRefresh = true) (w : World) (dir : Path) :
+    getCachedOrRefreshOffline P w dir = getCachedConfig P w dir := by
+  unfold getCachedOrRefreshOffline
+  cases getCachedConfig P w dir <;> simp [hR]
+
+/-- **Power loss after the rename** (file data not durable: no `fsync` before the rename).  If, after a
+power failure, the new cache file — under a name that did not exist before — holds anything that does not
+parse (by the stated law of `parse`: an empty file or any proper prefix of the document), while the other
+cache files are as before the update, `GetCached` returns exactly what it returned before the update.
+(A rename that was lost altogether is a pre-rename world, covered by `c45_crash_safe`.)  Not covered:
+a same-named older file replaced by the non-durable one, and file systems that reorder more than that. -/
+theorem c45_power_loss (P : Params) (hB : P.fallbackOlder = true) (w w' : World) (dir : Path) (now : Nat)
+    (I : Inv w dir) (I' : Inv w' dir) (hfresh : find w (dir ++ [cfgName now]) = none)
+    (n : Node) (hn : find w' (dir ++ [cfgName now]) = some n) (hbad : P.parse n.data = none)
+    (hsame : ∀ x, isCacheName x = true → x ≠ cfgName now → find w' (dir ++ [x]) = find w (dir ++ [x])) :
+    getCachedConfig P w' dir = getCachedConfig P w dir :=
+  getCached_extra_unusable P hB I I' (cfgName now) (isCacheName_cfgName now) hfresh n hn hbad hsame
+
 /-! ### the code before the fix violates the property (concrete witnesses, evaluated by the kernel) -/
 
 /-- the unrepaired code: `os.WriteFile` on the final name, only the newest file is tried -/
@@ -182,5 +224,33 @@ example : ((update { Pold with atomic := true, fallbackOlder := true } wOld ["ca
 is wrong (999999999 s = 2001-09-09, next change in 2286) — the reason for the `clock` hypothesis being
 stated on names. -/
 example : cfgName 1000000000 ≤ cfgName 999999999 := by decide
+
+/-- **Counterexample (cleanup by name only, `validCleanup = false`).** Cache size 1, a junk file named one
+second in the future, a valid version from two seconds ago: the update writes the new valid file, and the
+cleanup then keeps the junk (newest name) and removes both valid versions — the COMPLETED update ends
+with `GetCached` = fallback. -/
+theorem c45_cleanup_counterexample :
+    let P : Params := { Pold with atomic := true, fallbackOlder := true, validCleanup := false }
+    let w : World := AMap.insert wOld ["cache", "autoconf-1000000004.json"] (fileNode 0o600 [7, 7])
+    getCachedConfig P w ["cache"] = some 1 ∧
+    getCachedConfig P (update P w ["cache"] T0 1 1000000003 [2, 2] [] [] [48]).last ["cache"] = none := by
+  decide
+
+/-- the repaired cleanup on the same witness keeps the new version -/
+example :
+    let P : Params := { Pold with atomic := true, fallbackOlder := true, validCleanup := true }
+    let w : World := AMap.insert wOld ["cache", "autoconf-1000000004.json"] (fileNode 0o600 [7, 7])
+    getCachedConfig P (update P w ["cache"] T0 1 1000000003 [2, 2] [] [] [48]).last ["cache"] = some 2 := by
+  decide
+
+/-- **Counterexample (`.last-refresh` required, `tolerantRefresh = false`).** First update into an empty
+cache directory, stopped after the config file was renamed into place and before `.last-refresh` exists:
+`GetCached` returns the new version, `GetCachedOrRefresh` with a failing fetch returns the fallback. -/
+theorem c45_refresh_counterexample :
+    let P : Params := { Pold with atomic := true, fallbackOlder := true, tolerantRefresh := false }
+    ∃ w' ∈ (update P w0 ["cache"] T0 3 1000000003 [2, 2] [] [] [48]).visited,
+      getCachedConfig P w' ["cache"] = some 2 ∧ getCachedOrRefreshOffline P w' ["cache"] = none := by
+  refine ⟨(update { Pold with atomic := true, fallbackOlder := true, tolerantRefresh := false } w0 ["cache"] T0 3
+    1000000003 [2, 2] [] [] [48]).visited.getD 3 w0, ?_, ?_⟩ <;> decide
 
 end C45
